@@ -173,7 +173,7 @@ func c06SrcOracle(prop string) func(c c06SrcCase) error {
 					files[name] = "\x00deleted"
 				default:
 					kind := 2 + (step-2)%(len(mutationNames)-2)
-					if m, keep := mutateSource(src, kind); keep {
+					if m, keep := mutateSource(name, src, kind); keep {
 						files[name] = m
 					} else {
 						files[name] = "\x00deleted"
@@ -254,7 +254,15 @@ func genC06Src(t *rapid.T) c06SrcCase {
 	c := c06SrcCase{P: genProg(t, n(4, 6)), Workers: rapid.IntRange(4, 12).Draw(t, "workers"), Naming: rapid.Bool().Draw(t, "naming")}
 	ns := rapid.IntRange(3, 7).Draw(t, "nsteps")
 	for i := 0; i < ns; i++ {
-		c.Steps = append(c.Steps, rapid.IntRange(0, len(mutationNames)-1).Draw(t, "step"))
+		// absent <-> present transitions matter most (anything remembered about the disk)
+		switch rapid.IntRange(0, 3).Draw(t, "stepKind") {
+		case 0:
+			c.Steps = append(c.Steps, 0)
+		case 1:
+			c.Steps = append(c.Steps, 1)
+		default:
+			c.Steps = append(c.Steps, rapid.IntRange(2, len(mutationNames)-1).Draw(t, "step"))
+		}
 	}
 	return c
 }
